@@ -39,8 +39,8 @@ is_6531_local (const char *start, const char *end)
     int qpair = 0;
     int quote = 0;
     int ch;
-    int prev = 0; /* byte index of the previous character */
-    int pos = 0;  /* byte index of the current character */
+    size_t prev = 0; /* byte index of the previous character */
+    size_t pos = 0;  /* byte index of the current character */
     utf8_decode_t u;
 
 
